@@ -60,7 +60,7 @@ impl AOracle for Oracle {
         let c = &w.clients[s.client];
         let triple: Triple = (g.measurement.clone(), g.epoch.clone(), g.threshold);
         // what this client derived, observed through the public API only
-        let mg = MessageGenerator::new(SingleMeasurement::new(&g.measurement), g.threshold, &g.epoch);
+        let mg = MessageGenerator::new(crate::worlds::a::make_measurement(&g.measurement), g.threshold, &g.epoch);
         let mut rnd = [0u8; 32];
         mg.sample_local_randomness(&mut rnd);
         let mat = ctx.os.with_node(c.node as u64, || mg.share_with_local_randomness()).map_err(|e| Violation::new("c04.generate", "generate", e.to_string()))?;
